@@ -343,7 +343,17 @@ func (sfs *worktreeFilesystem) validNoFinalSymlink(p string) error {
 	if p == "" || p == "." || p == "/" {
 		return nil
 	}
-	if fi, err := sfs.Filesystem.Lstat(p); err == nil && fi.Mode()&os.ModeSymlink != 0 {
+	fi, err := sfs.Filesystem.Lstat(p)
+	if err != nil {
+		// Nothing there (or below a non-directory): nothing to follow. Any
+		// other error means the path could not be inspected; it might be a
+		// link, so the operation that would follow it is refused.
+		if errors.Is(err, fs.ErrNotExist) || errors.Is(err, syscall.ENOTDIR) {
+			return nil
+		}
+		return fmt.Errorf("invalid path %q: %w", p, err)
+	}
+	if fi.Mode()&os.ModeSymlink != 0 {
 		return fmt.Errorf("invalid path %q: is a symlink", p)
 	}
 	return nil
